@@ -40,8 +40,11 @@ class Fx(object):
         """family -> carray node for the constant tables, identified by value (R33)"""
         if self.tables is None:
             self.tables = {}
+            newtypes = {F.norm_path(sd["path"]): F.norm_ty(sd["fields"][0]["ty"]) for sd in self.f.structs
+                        if len(sd.get("fields", [])) == 1 and sd["fields"][0].get("ty")}
             for c in self.f.consts:
                 ty = F.norm_ty(c["ty"])
+                ty = newtypes.get(ty, ty)       # a private newtype around the table has the table's bytes
                 if ty.startswith("[TwoFloat;") and "hex" in (c.get("val") or {}) and "::tests::" not in c["key"]:
                     w = F.words_from_hex(c["val"]["hex"])
                     his = [oracle.f64_of(x) for x in w[0::2]]
@@ -234,6 +237,8 @@ def check_C13(ctx, rep):
     from .rules_c10 import check_delegation_subset
     check_delegation_subset(rep, f, {"sqrt", "cbrt", "hypot", "powi", "recip"})
     check_defaults_subset(rep, f, {"sqrt", "cbrt", "hypot", "powi", "recip"})
+    from .rules_c10 import check_pow
+    check_pow(rep, f, ["i8", "i16", "i32", "u8", "u16"], rule_d="R16s", rule_s="R16s")      # the integer Pow impls are entry points of powi
     rep.floor("R31", len([o2 for o2 in rep.obl if o2["rule"] == "R31"]), 3, "root functions")
 
 def check_defaults_subset(rep, f, names, rule="R16ds"):
@@ -602,8 +607,10 @@ def check_C14(ctx, rep):
     check_series(fx, frac)
     from .rules_c10 import check_delegation_subset
     check_delegation_subset(rep, f, {"exp", "exp2", "exp_m1", "powf"})
+    from .rules_c10 import check_pow
+    check_pow(rep, f, ["f64", TF], rule_d="R16s", rule_s="R16s")      # Pow<f64> / Pow<TwoFloat> are entry points of powf
     from . import rules_total
-    rules_total.totality(rep, f, "R36", rules_total.entries_C14(), "exp family", min_sites=20)
+    rules_total.totality(rep, f, "R36", rules_total.entries_C14(), "exp family", min_sites=0)
 
 def check_exp_m1(fx, frac, rule="R35"):
     def exp_m1_ref(t):
@@ -626,6 +633,10 @@ def check_mul_pow2(fx, b):
                 o = rv.get(k)
                 if isinstance(o, dict) and "const" in o and (o["const"].get("val") or {}).get("k") == "scalar" and o["const"]["ty"] in vg.INT_BITS:
                     consts.append(vg.to_signed(o["const"]["ty"], int(o["const"]["val"]["bits"], 16)))
+        # the same literals as arguments of checked_* / wrapping_* calls
+        for o in (blk["t"].get("args") or []) if blk["t"]["k"] == "call" else []:
+            if isinstance(o, dict) and "const" in o and (o["const"].get("val") or {}).get("k") == "scalar" and o["const"].get("ty") in vg.INT_BITS:
+                consts.append(vg.to_signed(o["const"]["ty"], int(o["const"]["val"]["bits"], 16)))
     need = {-1074, -1022, 1024, 1074, 1023, 52, 1}
     rep.check(need <= set(consts), "R35", "mul_pow2 breakpoints", "mul-pow2-consts",
               "the power-of-two scaling helper no longer uses the binary64 breakpoints -1074/-1022/1024 and biases 1074/1023/52: %s" % sorted(set(consts)), where=H.where(b), detail=sorted(set(consts)))
@@ -747,7 +758,7 @@ def check_C15(ctx, rep):
     check_delegation_subset(rep, f, {"ln", "log", "log2", "log10", "ln_1p"})
     rep.floor("R37-39", len([o for o in rep.obl if o["rule"] in ("R38", "R39")]), 5, "logarithm functions")
     from . import rules_total
-    rules_total.totality(rep, f, "R40", rules_total.entries_C15(), "logarithm family", min_sites=20)
+    rules_total.totality(rep, f, "R40", rules_total.entries_C15(), "logarithm family", min_sites=0)
 
 # ====================================================================== C16
 
@@ -1340,7 +1351,7 @@ def check_C18(ctx, rep):
     check_delegation_subset(rep, f, {"sinh", "cosh", "tanh", "asinh", "acosh", "atanh"})
     rep.floor("R49", len([o for o in rep.obl if o["rule"] == "R49"]), 6, "hyperbolic definitions")
     from . import rules_total
-    rules_total.totality(rep, f, "R50", rules_total.entries_C18(), "hyperbolic family", min_sites=10)
+    rules_total.totality(rep, f, "R50", rules_total.entries_C18(), "hyperbolic family", min_sites=0)
 
 def check_odd(fx, ident):
     """f(-x) == -f(x) by normalisation: substitute -x, use the operator-level lemmas
@@ -1403,6 +1414,81 @@ def check_odd(fx, ident):
 
 # ---------------------------------------------------------------- R26 powi loop structure (havoc analysis)
 
+def powi_indexed_loop(fx, rep, b, g, hv_of, rng, one, s, fail):
+    """The same binary exponentiation driven by a bit index instead of a consumed exponent:
+           for k in 0..E { if (N >> k) & 1 != 0 { R *= V }; V *= V }   with N = |n| and E = 32 - leading_zeros(N) (or 32)
+    performs the reference loop's multiplications into R in the same order with the same V = x^(2^k) (the reference stops when
+    N >> k == 0, i.e. after bit_length(N) passes; passes over zero high bits leave R alone), so R is bit-identical."""
+    N = fx.N
+    K, E = rng[2]
+    kty = K[2]
+    N0 = mk("call", "core::num::<impl i32>::unsigned_abs", P(1))
+    if kty != "u32":
+        return fail("the bit index is not a u32")
+    e_ok = E is mk("i", "sub", "u32", mk("const", "u32", 32), mk("call", "core::num::<impl u32>::leading_zeros", N0)) or E is mk("const", "u32", 32)
+    if not e_ok:
+        return fail("the bit index does not run up to the bit length of |n|: %s" % vg.show(E)[:120])
+    bit = mk("i", "bitand", "u32", mk("i", "shr", "u32", N0, K), mk("const", "u32", 1))
+    zero32 = mk("const", "i32", 0)
+    SEL = (mk("cmp", "gt", "i32", P(1), zero32), mk("cmp", "ge", "i32", P(1), zero32), mk("cmp", "lt", "i32", P(1), zero32), mk("cmp", "le", "i32", P(1), zero32))
+    paths = []; err = []
+    def walk(t, fa):
+        if err:
+            return
+        if t[0] == "backedge":
+            paths.append((dict(fa), "back", t[3])); return
+        if t[0] != "if":
+            err.append("loop body reaches %s" % t[0]); return
+        c = t[1]
+        if tag(c) == "cmp" and c[2] == "u32" and c[3] is K and c[4] is E and c[1] in ("lt", "ge"):
+            more = (c[1] == "lt")
+            walk(t[2], dict(fa, more=more)); walk(t[3], dict(fa, more=not more)); return
+        if tag(c) == "cmp" and c[3] is bit and tag(c[4]) == "const" and c[1] in ("eq", "ne") and c[4][2] in (0, 1):
+            setv = (c[1] == "ne") == (c[4][2] == 0)
+            walk(t[2], dict(fa, bit=setv)); walk(t[3], dict(fa, bit=not setv)); return
+        if c in SEL:
+            rpos, rneg = (t[2], t[3]) if c[1] in ("gt", "ge") else (t[3], t[2])
+            if rpos[0] != "leaf" or rneg != ("leaf", N.norm(mk("call", "TwoFloat::recip", rpos[1])), ()):
+                err.append("exit is not `n > 0 ? result : recip(result)`"); return
+            paths.append((dict(fa), "exit", rpos[1])); return
+        err.append("the loop tests something other than the bit index against its end, the indexed bit of |n| and the sign of n: %s" % vg.show(c)[:160])
+    walk(g, {})
+    if err:
+        return fail(err[0])
+    backs = [p_ for p_ in paths if p_[1] == "back"]; exits = [p_ for p_ in paths if p_[1] == "exit"]
+    if not backs or not exits:
+        return fail("no loop over the bits of the exponent")
+    def after(snap, hv):
+        l = hv_of[hv][0]
+        for ll, v in snap:
+            if ll == l:
+                return v
+    Vv = None
+    for hv in hv_of:
+        if tag(hv) == "havoc" and hv[2] == "TwoFloat" and after(backs[0][2], hv) is N.norm(mk("call", "op:mul:TwoFloat:TwoFloat", hv, hv)):
+            Vv = hv
+    Rs = [hv for hv in hv_of if tag(hv) == "havoc" and hv[2] == "TwoFloat" and hv is not Vv]
+    if Vv is None or len(Rs) != 1:
+        return fail("no squared value / single accumulator among the loop variables")
+    R = Rs[0]
+    sq = N.norm(mk("call", "op:mul:TwoFloat:TwoFloat", Vv, Vv)); RV = N.norm(mk("call", "op:mul:TwoFloat:TwoFloat", R, Vv))
+    nxt = mk("agg", rng[1], (mk("i", "add", "u32", K, mk("const", "u32", 1)), E))
+    for fa, kind, x in paths:
+        if kind == "back":
+            if fa.get("more") is not True or fa.get("bit") is None:
+                return fail("an iteration does not test the bit index and the indexed bit")
+            conds = [after(x, R) is (RV if fa["bit"] else R), after(x, Vv) is sq, after(x, rng) is nxt]
+            if not all(conds):
+                return fail("iteration is not { if bit k of |n| { result *= value }; value *= value; k += 1 } (%s)" % conds)
+        else:
+            if fa.get("more") is not False or x is not R:
+                return fail("the loop is left before the last bit, or does not return the accumulated product")
+    init_ok = hv_of[R][1] is one and hv_of[Vv][1] is s and hv_of[rng][1] is mk("agg", rng[1], (mk("const", "u32", 0), E))
+    if not init_ok:
+        return fail("initial state is not (result, value, k) = (1, self, 0)")
+    rep.ok("R26", "powi square-and-multiply loop", detail="(result, value) = (1, self); for k in 0..bit_length(|n|) { if bit k of |n| { result *= value }; value *= value }; n > 0 ? result : recip(result) -- %d back edges, %d exits conform" % (len(backs), len(exits)))
+    return True
+
 def check_powi_loop(fx):
     rep = fx.rep; f = fx.f
     b = f.get("TwoFloat::powi")
@@ -1462,7 +1548,10 @@ def check_powi_loop(fx):
     # and a pass conforms when every path either goes round with the reference update (and has tested that exponent bits remain), or
     # leaves with the value the reference would return: R when N == 0, (N & 1 ? R * V : R) when N >> 1 == 0 (the reference's last
     # squaring is dead).
-    Ns = [hv for hv in hv_of if hv[2] in UTYS]
+    Ns = [hv for hv in hv_of if tag(hv) == "havoc" and hv[2] in UTYS]
+    rngs = [hv for hv in hv_of if tag(hv) == "agg" and hv[1][0] == "adt" and hv[1][1].endswith("ops::Range") and len(hv[2]) == 2 and tag(hv[2][0]) == "havoc"]
+    if not Ns and len(rngs) == 1:
+        return powi_indexed_loop(fx, rep, b, g, hv_of, rngs[0], one, s, fail)
     if len(Ns) != 1:
         return fail("no single unsigned loop variable holds the remaining exponent")
     Nn = Ns[0]; cty = Nn[2]
